@@ -38,5 +38,6 @@ class JointDegreeFunction(JointDegree):
             list(range(kmin, kmax + 1)) for kmin, kmax in self._low_high_degree_bounds
         ]
         # iterate all joint degrees and evaluate the joint degree
+        self._jdd = {}
         for jd in list(product(*ks)):
             self._jdd[jd] = self._fp(jd)
